@@ -109,3 +109,216 @@ Theorem C15_gc_exact s L r s' :
                      (msucc s !! n : option mtuple) = Some t) ∧
   mfree s' = mfree s ∪ (dom (msucc s) ∖ dom (msucc s')).
 Proof. exact (m_gc_exact s L r s'). Qed.
+
+(** the counters are exact in a new manager and stay exact (same ledger)
+    through [find_or_add], [ite] and [apply]; [incref]/[decref] move the
+    ledger entry of the node by one *)
+Theorem C15_counts_init dvars : MCounts (mdd_init dvars) (fun _ => 0).
+Proof. exact (mdd_init_MCounts dvars). Qed.
+
+Theorem C15_counts_find_or_add s L i nodes r s' :
+  MInv s → MCounts s L → (∀ x, x ∈ nodes → mvalid s x) →
+  m_find_or_add i nodes s = (r, s') → MCounts s' L.
+Proof. exact (m_find_or_add_counts s L i nodes r s'). Qed.
+
+Theorem C15_counts_ite s L g u v r s' :
+  MInv s → MCounts s L → mvalid s g → mvalid s u → mvalid s v →
+  m_ite_ g u v s = (r, s') → MCounts s' L.
+Proof. exact (m_ite__counts s L g u v r s'). Qed.
+
+Theorem C15_counts_apply s L op u v w r s' f :
+  MInv s → MCounts s L → op ∈ py_vocab → conn_sem op = Some f →
+  mvalid s u → movalid s v → movalid s w → arity_ok op v w = true →
+  mdd_apply_with mdd_apply_table op u v w s = (r, s') → MCounts s' L.
+Proof. exact (mdd_apply_counts s L op u v w r s' f). Qed.
+
+Theorem C15_counts_incref s L u r s' :
+  mvalid s u → MCounts s L → m_incref u s = (r, s') →
+  r = Ok tt ∧ MCounts s' (ledger_inc L (absn u)).
+Proof. exact (MCounts_incref s L u r s'). Qed.
+
+Theorem C15_counts_decref s L u r s' :
+  mvalid s u → MCounts s L → 0 < L (absn u) → m_decref u s = (r, s') →
+  r = Ok tt ∧ MCounts s' (ledger_dec L (absn u)).
+Proof. exact (MCounts_decref s L u r s'). Qed.
+
+(** ** [bdd_to_mdd(bdd, dvars)]
+
+    The function is: compute the target bit order; [bdd.collect_garbage()];
+    [reorder(bdd, order)]; then the conversion proper, [bdd_to_mdd_tail]
+    (selection of the nodes entered from outside their zone, then one MDD
+    node per selected BDD node, deepest BDD level first). *)
+Theorem C15_bdd_to_mdd_unfold dvars order :
+  bdd_to_mdd dvars order =
+  (let m := length dvars in
+   bits_in_order <- mapM (fun j =>
+      of_opt EKey (match list_find (fun '(_, (l, _)) => bool_decide (l = j)) dvars with
+                   | Some (_, (_, (_, bits))) => Some bits
+                   | None => None
+                   end)) (seq 0 m) ;;
+   let target := concat bits_in_order in
+   let bit_to_sort : list (nat * nat) := imap (fun k b => (b, k)) target in
+   collect_garbage None ;;;
+   reorder (Some (list_to_map bit_to_sort)) ;;;
+   bdd_to_mdd_tail dvars bit_to_sort order).
+Proof. exact (bdd_to_mdd_unfold dvars order). Qed.
+
+(** The conversion proper, RELATIVE to the state [s] reached after the
+    reordering: [Inv s], dynamic reordering off, and [b2m_wf dvars s]
+    (integer variables named once, at levels [0..m-1]; the bits of a variable
+    listed once; every bit belongs to one variable; ZONES: the integer level
+    [ilvl] of a BDD level is monotone in the BDD level — in particular when
+    the bits of each integer variable occupy consecutive levels in the order
+    of [dvars]).  Whenever the conversion returns [(mdd, umap)]: the BDD
+    manager only grew and every BDD reference keeps its function; [mdd]
+    satisfies the MDD invariant and has the variables of [dvars] (variable
+    at level [j] with [2 ^ #bits] values); and for every entry [u ↦ x] of
+    [umap] (a reference [-u] maps to [-x], [MD_neg]/[D_neg]), on every
+    in-range integer assignment [I] the MDD reference [x] has the value of
+    the BDD node [u] on the bit assignment [bits_of dvars s I].
+
+    [_partial]: this is partial correctness.  Missing for the full property:
+    (1) totality of this part, i.e. that the selected set [keep] contains the
+    target of every cofactor (otherwise [umap[abs(z)]] raises [KeyError],
+    modelled as [Err EKey]); (2) that the state reached after
+    [collect_garbage]+[reorder] satisfies the hypotheses (zones), which
+    depends on the correctness of [reorder], proved elsewhere. *)
+Theorem C15_bdd_to_mdd_tail_partial dvars b2s order s mdd umap s' :
+  Inv s → last_len s = None → b2m_wf dvars s →
+  bdd_to_mdd_tail dvars b2s order s = (Ok (mdd, umap), s') →
+  Inv s' ∧ extends s s' ∧ (∀ v a, valid s v → D s' v a = D s v a) ∧
+  MInv mdd ∧ mextends (b2m_mdd0 dvars) mdd ∧
+  ∀ u x, (u, x) ∈ umap →
+    valid s (Z.pos u) ∧ mvalid mdd x ∧
+    ∀ I, minrange mdd I → MD mdd x I = D s (Z.pos u) (bits_of dvars s I).
+Proof. exact (bdd_to_mdd_tail_partial_correct dvars b2s order s mdd umap s'). Qed.
+
+(** one iteration of the final loop keeps the loop invariant [B2M] (the BDD
+    manager only grew from [s0]; [mdd] is well formed; every entry of [umap]
+    has the right meaning and sits at or below the integer level of its BDD
+    node): if the node is skipped or its MDD node is built, the new entry is
+    correct *)
+Theorem C15_bdd_to_mdd_step_partial dvars s0 keep sb mdd umap u r sb' :
+  Inv s0 → b2m_wf dvars s0 →
+  B2M dvars s0 sb mdd umap → u ∈ dom (succ s0) →
+  b2m_step dvars keep (mdd, umap) u sb = (r, sb') →
+  match r with
+  | Ok (mdd', umap') => B2M dvars s0 sb' mdd' umap'
+  | Err _ => True
+  end.
+Proof. exact (fun H1 H2 => b2m_step_spec dvars s0 H1 H2 keep sb mdd umap u r sb'). Qed.
+
+(** [bits_of] in terms of binary digits: the bit listed at position [p] of
+    the integer variable at level [j] gets digit [p] of [I j] — first listed
+    bit least significant, as [_enumerate_integer] *)
+Theorem C15_bits_of_testbit dvars s I l b var j bits p :
+  Inv s → b2m_wf dvars s → lvl2var s !! l = Some b → (var, (j, bits)) ∈ dvars →
+  bits !! p = Some b → I j < 2 ^ length bits →
+  bits_of dvars s I l = Nat.testbit (I j) p.
+Proof. exact (bits_of_testbit dvars s I l b var j bits p). Qed.
+
+Theorem C15_enumerate_integer bits k d p b :
+  NoDup bits → enumerate_integer bits !! k = Some d → bits !! p = Some b →
+  Mdd.assoc d b = Some (Nat.testbit k p).
+Proof. exact (enumerate_integer_testbit bits k d p b). Qed.
+
+(** ** Non-vacuity *)
+
+(** an MDD manager with x0 ∈ {0,1,2} (level 0) and x1 ∈ {0,1} (level 1):
+    nodes, [apply], [ite], collection, and reuse of a freed id *)
+Definition C15_run (ops : list mop) : mworld * list (res value) :=
+  fold_left (fun '(w, rs) o => let '(w', r) := mstep w 0 o in (w', (rs ++ [r])%list))
+            ops (mworld_empty, []).
+Definition C15_ops : list mop :=
+  [MNew [(0, (0, 3)); (1, (1, 2))];
+   MFindOrAdd 1 [(-1)%Z; 1%Z];             (* -2 : node 2 is (x1 = 0), the result its negation *)
+   MFindOrAdd 0 [1%Z; (-2)%Z; 2%Z];        (* 3 *)
+   MApply "and" (-2) (Some 3%Z) None;      (* -4 *)
+   MIte 3 (-2) 2;                          (* -5 *)
+   MIncref 4; MGc;                         (* frees 3 and 5 *)
+   MFindOrAdd 0 [1%Z; (-1)%Z; (-2)%Z]].    (* reuses the freed id 3 *)
+
+Example C15_mdd_dvars_ok : dvars_ok [(0, (0, 3)); (1, (1, 2))].
+Proof.
+  split; [|split].
+  - refine (bool_decide_unpack _ _). by vm_compute.
+  - intros v1 v2 l n1 n2 H1 H2.
+    apply elem_of_list_In in H1, H2. cbn in H1, H2.
+    destruct H1 as [H1|[H1|[]]], H2 as [H2|[H2|[]]]; by simplify_eq.
+  - intros l Hl. cbn in Hl.
+    destruct l as [|[|l]]; [exists 0, 3; left|exists 1, 2; right; left|lia].
+Qed.
+
+Example C15_mdd_ops :
+  let '(w, rs) := C15_run C15_ops in
+  let s := mworld_get w 0 in
+  rs = [Ok VU; Ok (VZ (-2)); Ok (VZ 3); Ok (VZ (-4)); Ok (VZ (-5)); Ok VU; Ok VU; Ok (VZ 3)] ∧
+  elements (mfree s) = [5%positive] ∧
+  elements (dom (msucc s)) = [1; 2; 4; 3]%positive ∧
+  (* -2 is (x1 = 1); node 3 was: x0 = 0, or x0 = 1 ∧ x1 = 1, or x0 = 2 ∧ x1 = 0;
+     the surviving result -4 of "and" is their conjunction *)
+  forallb (fun '(i0, i1) =>
+    bool_decide (MD s (-4) (fun l => match l with 0 => i0 | _ => i1 end) =
+                 (bool_decide (i1 = 1) &&
+                  (bool_decide (i0 = 0) || (bool_decide (i0 = 1) && bool_decide (i1 = 1)) ||
+                   (bool_decide (i0 = 2) && bool_decide (i1 = 0))))))
+    [(0, 0); (0, 1); (1, 0); (1, 1); (2, 0); (2, 1)] = true.
+Proof. by vm_compute. Qed.
+
+(** a conversion: BDD over bits v0, v1, v2 with the function v1 ∨ v2
+    referenced; x10 has bits [v0; v1] (v0 least significant), x11 has [v2] *)
+Definition C15_bdd : world2 :=
+  fold_left (fun w o => fst (step2 w 0 (O1 o)))
+    [ONew [(0, 0); (1, 1); (2, 2)]; OVar 0; OVar 1; OVar 2;
+     OApply "and" 2 (Some 3%Z) None; OApply "\/" 5 (Some 4%Z) None; OIncref 6] world2_empty.
+Definition C15_dvars : list (nat * (nat * list nat)) := [(10, (0, [0; 1])); (11, (1, [2]))].
+
+Example C15_conversion :
+  let '(w, mw, r) := step_bdd_to_mdd C15_bdd mworld_empty 0 0 C15_dvars [4%positive; 6%positive] in
+  let s := world2_get w 0 in
+  let mdd := mworld_get mw 0 in
+  r = Ok (VL [VL [VZ 1; VZ 1]; VL [VZ 4; VZ (-2)]; VL [VZ 6; VZ (-3)]]) ∧
+  (* node 6 is v1 ∨ v2; its image -3 has the same value on every assignment,
+     bit v1 being binary digit 1 of x10 *)
+  forallb (fun '(i0, i1) =>
+    let I := fun l => match l with 0 => i0 | _ => i1 end in
+    bool_decide (MD mdd (-3) I = D s 6 (bits_of C15_dvars s I)) &&
+    bool_decide (D s 6 (bits_of C15_dvars s I) = (Nat.testbit i0 1 || Nat.testbit i1 0)))
+    [(0, 0); (0, 1); (1, 0); (1, 1); (2, 0); (2, 1); (3, 0); (3, 1)] = true.
+Proof. by vm_compute. Qed.
+
+(** the hypotheses of [C15_bdd_to_mdd_tail_partial] other than [Inv] can be
+    checked by computation ([b2m_wf_b] is a sound checker for [b2m_wf]); on
+    the example, after [collect_garbage] and [reorder] they hold and the
+    conversion proper returns *)
+Theorem C15_b2m_wf_check dvars s : b2m_wf_b dvars s = true → b2m_wf dvars s.
+Proof. exact (b2m_wf_b_sound dvars s). Qed.
+
+Example C15_conversion_hypotheses :
+  let s := world2_get C15_bdd 0 in
+  let b2s := [(0, 0); (1, 1); (2, 2)] in
+  let '(r1, s1) := (collect_garbage None ;;; reorder (Some (list_to_map b2s))) s in
+  r1 = Ok tt ∧ last_len s1 = None ∧ b2m_wf_b C15_dvars s1 = true ∧
+  match bdd_to_mdd_tail C15_dvars b2s [4%positive; 6%positive] s1 with
+  | (Ok (_, umap), _) => umap = [(1%positive, 1%Z); (4%positive, (-2)%Z); (6%positive, (-3)%Z)]
+  | _ => False
+  end.
+Proof. by vm_compute. Qed.
+
+(** why [C15_canonical] asks for [mlens_pos]: the model (as the Python
+    class) accepts a variable with no value; then no assignment is in range
+    and the two references of the terminal agree on all of them *)
+Example C15_canonical_needs_values :
+  let s := mdd_init [(0, (0, 0))] in
+  MInv s ∧ mvalid s 1 ∧ mvalid s (-1) ∧ ∀ I, ¬ minrange s I.
+Proof.
+  assert (Hok : dvars_ok [(0, (0, 0))]).
+  { split; [|split].
+    - refine (bool_decide_unpack _ _). by vm_compute.
+    - intros v1 v2 l n1 n2 H1%elem_of_list_singleton H2%elem_of_list_singleton. congruence.
+    - intros l Hl. cbn in Hl. assert (l = 0) as -> by lia. exists 0, 0. by left. }
+  pose proof (mdd_init_MInv _ Hok) as HI.
+  split; [done|]. split; [by apply mvalid_1|]. split; [by apply mvalid_m1|].
+  intros I Hr. specialize (Hr 0 0 0). cbn in Hr.
+  assert (I 0 < 0); [|lia]. apply Hr. by vm_compute.
+Qed.
